@@ -230,7 +230,7 @@ def progR : Tid → List Nat := fun t => if t = 0 then [3] else if t = 1 then [2
 
 -- non-vacuity: thread 0 creates the nested virtual sensor 3 (depth reaches 3) while thread 1 waits,
 -- then thread 1 finds 2 and 0 cached; all results are the sequential values
-example : (run cR (init cR progR) (List.replicate 32 0 ++ List.replicate 8 1)).map
+example : (run cR (init cR progR) (List.replicate 37 0 ++ List.replicate 10 1)).map
     (fun s => ((s.th 0).results, (s.th 1).results, s.owner, s.depth)) =
     some ([(3, svR 3)], [(2, svR 2), (0, svR 0)], none, 0) := by decide
 example : (run cR (init cR progR) (List.replicate 8 0)).map (fun s => (s.owner, s.depth)) =
